@@ -19,17 +19,19 @@ type TV struct {
 }
 
 type SpecEval struct {
-	c        *Ctx
-	fr       *Frame
-	st, old  *State
-	vars     map[string]TV
-	bound    map[string]TV
-	pkg      string
-	allocOld string
-	phis     map[*ssa.Phi]Val
-	header   *ssa.BasicBlock
-	inOld    bool
-	prevSt   *State // state at the start of the current loop iteration (step clauses)
+	c         *Ctx
+	fr        *Frame
+	st, old   *State
+	vars      map[string]TV
+	bound     map[string]TV
+	pkg       string
+	allocOld  string
+	phis      map[*ssa.Phi]Val
+	header    *ssa.BasicBlock
+	inOld     bool
+	prevSt    *State // state at the start of the current loop iteration (step clauses)
+	entrySt   *State // state on arrival at the loop (loop invariants and steps: atentry(e))
+	entryPhis map[*ssa.Phi]Val
 }
 
 func (c *Ctx) newSpecEval(fr *Frame, st, old *State) *SpecEval {
@@ -349,6 +351,11 @@ func (ev *SpecEval) ident(name string) (TV, error) {
 			}
 		}
 	}
+	if ev.header != nil && ev.fr != nil {
+		if v, t, ok := ev.enclosingPhi(name); ok {
+			return TV{T: c.termOrEmpty(v), Typ: t, V: v}, nil
+		}
+	}
 	if v, ok := ev.vars[name]; ok {
 		return v, nil
 	}
@@ -376,6 +383,38 @@ func (ev *SpecEval) ident(name string) (TV, error) {
 	return TV{}, fmt.Errorf("unknown name %q", name)
 }
 
+// enclosingPhi: a variable carried by an ENCLOSING loop (not by the loop whose invariant is being evaluated): its
+// value in the current outer iteration, innermost enclosing loop first - not the entry value of a parameter of
+// the same name.
+func (ev *SpecEval) enclosingPhi(name string) (Val, types.Type, bool) {
+	if ev.header == nil || ev.fr == nil {
+		return Val{}, nil, false
+	}
+	fr := ev.fr
+	ci := ev.c.mods.cfgOf(fr.fn)
+	var encl []*loopInfo
+	for _, li := range ci.loops {
+		if li.header != ev.header && li.blocks[ev.header] {
+			encl = append(encl, li)
+		}
+	}
+	sort.Slice(encl, func(i, j int) bool { return len(encl[i].blocks) < len(encl[j].blocks) })
+	for _, li := range encl {
+		for _, ins := range li.header.Instrs {
+			phi, ok := ins.(*ssa.Phi)
+			if !ok {
+				break
+			}
+			if phi.Comment == name {
+				if v, ok := fr.vals[phi]; ok {
+					return v, phi.Type(), true
+				}
+			}
+		}
+	}
+	return Val{}, nil, false
+}
+
 // frameName resolves a source-level variable name in the frame's function.
 func (ev *SpecEval) frameName(name string) (Val, types.Type, bool) {
 	fr := ev.fr
@@ -397,6 +436,9 @@ func (ev *SpecEval) frameName(name string) (Val, types.Type, bool) {
 				}
 			}
 		}
+	}
+	if v, t, ok := ev.enclosingPhi(name); ok {
+		return v, t, true
 	}
 	for _, p := range fn.Params {
 		if p.Name() == name {
@@ -632,6 +674,40 @@ func (ev *SpecEval) call(x *SCall) (TV, error) {
 	id, ok := x.Fun.(*SIdent)
 	if !ok {
 		return TV{}, fmt.Errorf("unsupported call %s", x)
+	}
+	if id.Name == "atentry" && len(x.Args) == 2 {
+		// atentry(N, e): the value of e when loop N of this function was (last) reached - usable after that loop too
+		nv, err := ev.eval(x.Args[0])
+		if err != nil {
+			return TV{}, err
+		}
+		if ev.fr == nil {
+			return TV{}, fmt.Errorf("atentry(N, e) needs a function frame")
+		}
+		lcfg := ev.fr.cfg
+		if lcfg == nil {
+			lcfg = c.mods.cfgOf(ev.fr.fn)
+		}
+		for _, li := range lcfg.loops {
+			if fmt.Sprint(li.ordinal) == nv.T && li.entrySt != nil {
+				sub := *ev
+				sub.st = li.entrySt
+				sub.phis = li.entryPhis
+				sub.header = li.header
+				return sub.eval(x.Args[1])
+			}
+		}
+		return TV{}, fmt.Errorf("atentry: loop %s has not been reached on this path", nv.T)
+	}
+	if id.Name == "atentry" && len(x.Args) == 1 {
+		// the value of e when the loop was reached (before its first iteration)
+		if ev.entrySt == nil {
+			return TV{}, fmt.Errorf("atentry() is only meaningful in a loop invariant or step clause")
+		}
+		sub := *ev
+		sub.st = ev.entrySt
+		sub.phis = ev.entryPhis
+		return sub.eval(x.Args[0])
 	}
 	if id.Name == "prev" && len(x.Args) == 1 {
 		if ev.prevSt == nil {
